@@ -104,7 +104,8 @@ def one_copybook(ck: Check, roots: list[Node], inject: dict[int, list[Node]], st
             if [g[2] for g in got] != [w[2] for w in want]:
                 ck.fail(sig, f"record {root.unique}: entries are nested differently from the level numbers", inp)
                 break
-            bad = [(g[0], g[1], w[1]) for g, w in zip(got, want) if g[1] != w[1]]
+            # (an entry with neither name nor clauses, `06.`, is carried as '06 ': trailing blanks are layout, not text)
+            bad = [(g[0], g[1], w[1]) for g, w in zip(got, want) if g[1].rstrip() != w[1].rstrip()]
             if bad:
                 ck.fail(sig, f"record {root.unique}: entry {bad[0][0]} carries text {bad[0][1]!r}, the source says {bad[0][2]!r}", inp)
                 break
@@ -126,7 +127,8 @@ def sprinkle(rng, roots: list[Node]) -> dict[int, list[Node]]:
                 conds = []
                 for _ in range(rng.randint(1, 2)):
                     k += 1
-                    conds.append(Node(88, f"COND-{k}", extra=[f"VALUE '{chr(65 + k % 26)}'"]))
+                    lit = "''" if k % 4 == 0 else f"'{chr(65 + k % 26)}'" if k % 4 != 2 else '""'      # empty literals too
+                    conds.append(Node(88, f"COND-{k}", extra=[f"VALUE {lit}"]))
                 inject[id(n)] = conds
         if rng.random() < 0.2:
             k += 1
